@@ -24,7 +24,7 @@ ASSUMPTIONS = [
 ]
 REQUIRED = {
     "quick": {"fundamental_points_checked": 15000, "class/shocked_step": 150, "class/unshocked_other_market_step": 5000,
-              "class/continuation_after_shock": 100, "class/order_replaced": 40, "class/first_order_went_elsewhere": 20,
+              "class/continuation_after_shock": 100, "class/order_replaced": 40, "class/first_order_went_elsewhere": 12,
               "class/disabled_shock_run": 10, "class/trigger_time_without_target_order": 10,
               "orders_compared_with_request": 5000, "class/shock_window_past_session_end": 5,
               "class/shock_on_last_step_of_a_generation_chunk": 3,
